@@ -620,4 +620,100 @@ theorem concat_WF {a b : Poly} (ha : a.WF) (hb : b.WF) (hs : a.size = b.size) : 
       · exact absurd (hs.trans hb) hk
       · rw [hs]; exact hb x hx
 
+
+/-- structure of every binary operator over every ring (Z included): coefficient i of the result is the scalar operation
+    applied to coefficient i of the operands, a missing coefficient being 0; nothing else enters -/
+theorem binop_coeff {op : BinOp} {a b r : Poly} (h : binop op a b = .ok r) (i : Nat) :
+    r.e i = coeffOp op a.size (a.e i) (b.e i) := by
+  rw [binop_e h]
+  split
+  · rfl
+  · rename_i hi
+    rw [e_ge a (by omega), e_ge b (by omega), coeffOp_zero]
+
+/-- `+` refines the specification on plain coefficient lists, for every ring -/
+theorem add_spec {a b : Poly} (h : a.size = b.size) :
+    binop .add a b = .ok ⟨Spec.Poly.add a.size a.ival b.ival, a.size⟩ := by
+  rw [binop_eq_pointwise h]; rfl
+
+/-- `−` refines the specification, for every ring -/
+theorem sub_spec {a b : Poly} (h : a.size = b.size) :
+    binop .sub a b = .ok ⟨Spec.Poly.sub a.size a.ival b.ival, a.size⟩ := by
+  rw [binop_eq_pointwise h]; rfl
+
+/-- `&`, `|`, `^` over Z/2^k (k > 0) refine the specification (two's-complement operations of Spec.Poly on the
+    non-negative representatives) -/
+theorem bitops_spec {a b : Poly} (hk : 0 < a.size) (ha : a.WF) (hb : b.WF) (h : a.size = b.size) :
+    binop .and a b = .ok ⟨Spec.Poly.band a.ival b.ival, a.size⟩ ∧
+    binop .or a b = .ok ⟨Spec.Poly.bor a.ival b.ival, a.size⟩ ∧
+    binop .xor a b = .ok ⟨Spec.Poly.bxor a.ival b.ival, a.size⟩ := by
+  have hx : ∀ i, 0 ≤ Spec.Poly.coeff a.ival i := fun i => (WF_e ha hk i).1
+  have hy : ∀ i, 0 ≤ Spec.Poly.coeff b.ival i := fun i => (WF_e hb (h ▸ hk) i).1
+  refine ⟨?_, ?_, ?_⟩ <;> rw [binop_eq_pointwise h] <;> congr 2 <;> apply pointwise_congr <;> intro i
+  · rw [land_ofNat (hx i) (hy i)]; simp [coeffOp, Nat.ne_of_gt hk]
+  · rw [lor_ofNat (hx i) (hy i)]; simp [coeffOp, Nat.ne_of_gt hk]
+  · rw [lxor_ofNat (hx i) (hy i)]; simp [coeffOp, Nat.ne_of_gt hk]
+
+/-- unary minus and the shifts refine the specification, for every ring -/
+theorem neg_spec (a : Poly) : neg a = ⟨Spec.Poly.neg a.size a.ival, a.size⟩ := rfl
+theorem shl_spec (a : Poly) (n : Nat) : a.shl n = ⟨Spec.Poly.shl a.size a.ival n, a.size⟩ := rfl
+theorem shr_spec {a : Poly} (ha : a.WF) (n : Nat) : a.shr n = ⟨Spec.Poly.shr a.ival n, a.size⟩ := by
+  simp only [shr, Spec.Poly.shr]
+  congr 1
+  apply List.map_congr_left
+  intro x hx
+  rw [← Int.shiftRight_eq, Int.shiftRight_eq_div_pow]
+  apply red_of_range
+  by_cases hk : a.size = 0
+  · exact Or.inl hk
+  · right
+    rcases ha with ha | ha
+    · exact absurd ha hk
+    · have := ha x hx
+      have hp : (0:Int) < (2:Int)^n := Int.pow_pos (by decide)
+      refine ⟨Int.ediv_nonneg this.1 (Int.le_of_lt hp), ?_⟩
+      exact Int.lt_of_le_of_lt (Int.ediv_le_self _ this.1) this.2
+
+/-- shifting by a Python int: a negative count is refused as soon as there is a coefficient to shift -/
+theorem shlI_spec (a : Poly) (n : Int) :
+    (0 ≤ n → a.shlI n = .ok (a.shl n.toNat)) ∧ (n < 0 → a.ival ≠ [] → ∃ m, a.shlI n = .error m) ∧
+    (0 ≤ n → a.shrI n = .ok (a.shr n.toNat)) ∧ (n < 0 → a.ival ≠ [] → ∃ m, a.shrI n = .error m) := by
+  refine ⟨?_, ?_, ?_, ?_⟩
+  · intro h; simp [shlI, Int.not_lt.mpr h]
+  · intro h he; exact ⟨"ValueError:negative shift count", by simp [shlI, h, he]⟩
+  · intro h; simp [shrI, Int.not_lt.mpr h]
+  · intro h he; exact ⟨"ValueError:negative shift count", by simp [shrI, h, he]⟩
+
+theorem zeros_spec (k d : Nat) : (zeros k d).dim = d ∧ (zeros k d).size = k ∧ (zeros k d).WF ∧ ∀ i, (zeros k d).e i = 0 := by
+  refine ⟨by simp [zeros, dim], rfl, ?_, ?_⟩
+  · apply WF_of_forall
+    intro x hx
+    simp only [List.mem_replicate] at hx
+    by_cases hk : k = 0
+    · exact Or.inl hk
+    · obtain ⟨_, rfl⟩ := hx
+      exact Or.inr ⟨Int.le_refl 0, Int.pow_pos (by decide)⟩
+  · intro i
+    simp only [zeros, e, List.getD_eq_getElem?_getD, List.getElem?_replicate]
+    split <;> rfl
+
+theorem get_WF {a r : Poly} :
+    (∀ i, a.getInt i = .ok r → r.WF) ∧ (∀ s e st, a.getSlice s e st = .ok r → r.WF) ∧ (∀ idx, a.getList idx = .ok r → r.WF) := by
+  refine ⟨?_, ?_, ?_⟩
+  · intro i h
+    simp only [getInt, bind, Except.bind, pure, Except.pure] at h
+    split at h
+    · cases h
+    · cases h; exact ofList_WF _ _ _
+  · intro s e st h
+    simp only [getSlice, bind, Except.bind, pure, Except.pure] at h
+    split at h
+    · cases h
+    · cases h; exact ofList_WF _ _ _
+  · intro idx h
+    simp only [getList, bind, Except.bind, pure, Except.pure] at h
+    split at h
+    · cases h
+    · cases h; exact ofList_WF _ _ _
+
 end Proofs.C16
